@@ -157,12 +157,13 @@ inline void run_man(const ManProg &p) {
 // One scenario, three hosting modes: 0 single-thread start(awaitable), 1 thread mode,
 // 2 thread-pool mode.  Sleepers are coroutines (or blocking threads in modes 1/2) with a
 // generated duration and id; cancellers sleep and then cancel an id; optional interval().
-struct Sleeper { uint8_t dur; uint8_t id; uint8_t kind; };   // kind 0 coroutine sleeper, 1 blocking thread sleeper (modes 1/2), 2 canceller
+struct Sleeper { uint8_t dur; uint8_t id; uint8_t kind; uint8_t busy = 0; };   // busy: ms of blocking work the sleeper does right after it woke (occupies the thread that resumed it)
+//    // kind 0 coroutine sleeper, 1 blocking thread sleeper (modes 1/2), 2 canceller
 struct RunProg { uint8_t mode; uint8_t pool_threads; std::vector<Sleeper> sl; uint8_t interval; bool wait_first; bool destroy_pending; };
 
 inline RunProg decode_run(hz::Reader &r) {
     RunProg p;
-    p.mode = (uint8_t)r.mod(3);
+    p.mode = (uint8_t)r.mod(4);
     p.pool_threads = (uint8_t)(1 + r.mod(2));
     unsigned n = 1 + r.mod(4);
     for (unsigned i = 0; i < n; i++) {
@@ -174,21 +175,24 @@ inline RunProg decode_run(hz::Reader &r) {
     p.interval = (uint8_t)r.mod(3);          // 0 none, 1 interval stopped by token, 2 interval ticks consumed
     p.wait_first = r.flag();
     p.destroy_pending = r.flag();
+    // a sleeper that keeps the thread which woke it busy: the others must still be woken on time as long as a worker is idle
+    unsigned nb = r.mod(3);
+    for (unsigned k = 0; k < nb && k < p.sl.size(); k++) { Sleeper &x = p.sl[r.mod((unsigned)p.sl.size())]; if (x.kind == 0) x.busy = (uint8_t)(15 * (1 + r.mod(2))); }
     return p;
 }
 inline std::string describe_run(const RunProg &p) {
-    static const char *modes[] = {"single-thread start(awaitable)", "thread mode", "thread-pool mode"};
+    static const char *modes[] = {"single-thread start(awaitable)", "thread mode", "thread-pool mode", "two workers (thread mode + the owner serving start(awaitable))"};
     static const char *kinds[] = {"coroutine sleeper", "blocking-thread sleeper", "canceller"};
     hz::Desc d; d << modes[p.mode];
     if (p.mode == 2) d << "(" << (unsigned)p.pool_threads << " workers)";
     d << ":";
-    for (auto &s : p.sl) d << " [" << kinds[s.kind] << " " << (unsigned)s.dur << "ms id" << (unsigned)s.id << "]";
+    for (auto &s : p.sl) { d << " [" << kinds[s.kind] << " " << (unsigned)s.dur << "ms id" << (unsigned)s.id; if (s.busy) d << ", then busy " << (unsigned)s.busy << "ms"; d << "]"; }
     if (p.interval) d << (p.interval == 1 ? " + interval(10ms) stopped through its stop token" : " + interval(10ms) 2 ticks consumed");
     if (p.mode) d << (p.wait_first ? "; owner waits for the sleeps, then destroys" : "; owner destroys") << (p.destroy_pending ? " with an extra 1h sleep pending" : "");
     return d.s;
 }
 
-struct SRec { long tp = 0; long woke = -1; int code = -100; int order = 0; bool cancel_result = false; long cancel_at = -1; };
+struct SRec { long tp = 0; long woke = -1; int code = -100; int order = 0; bool cancel_result = false; long cancel_at = -1; long busy_until = -1; };
 
 struct RunCtx {
     cocls::scheduler *s = nullptr;
@@ -197,6 +201,8 @@ struct RunCtx {
     int order = 0;
     int done = 0;
     long ticks = 0; int interval_code = -100;
+    bool any_busy() const { for (auto &x : p->sl) if (x.busy) return true; return false; }
+    unsigned workers() const { return p->mode == 2 ? p->pool_threads : p->mode == 3 ? 2 : 1; }
 
     cocls::async<void> sleeper(size_t i) {
         const Sleeper &x = p->sl[i];
@@ -206,6 +212,7 @@ struct RunCtx {
         try { co_await s->sleep_until(at_ms(r.tp), ident(x.id)); }
         catch (const cocls::await_canceled_exception &) { code = -1; }
         r.woke = now_ms(); r.code = code; r.order = hz::tick();
+        if (x.busy) { r.busy_until = r.woke + x.busy; vrt::sleep_until((uint64_t)r.busy_until * 1000000ull); }
     }
     cocls::async<void> canceller(size_t i) {
         const Sleeper &x = p->sl[i];
@@ -232,14 +239,14 @@ struct RunCtx {
                     bool more = co_await gen.next();
                     if (!more) break;
                     ticks++;
-                    HZ_CHECK(now_ms() == t0 + 10 * (k + 1), "interval tick %d arrived at %ld ms, expected %ld ms", k, now_ms(), t0 + 10 * (k + 1));
+                    if (!any_busy()) HZ_CHECK(now_ms() == t0 + 10 * (k + 1), "interval tick %d arrived at %ld ms, expected %ld ms", k, now_ms(), t0 + 10 * (k + 1));
                 }
             } else {
                 bool more = co_await gen.next();     // first tick at +10ms
                 if (more) ticks++;
                 bool more2 = co_await gen.next();    // generator sleeps until +20ms; stop arrives at +15ms
                 if (more2) ticks += 100;             // a tick after the stop request is wrong
-                HZ_CHECK(now_ms() == t0 + 15, "interval generator ended at %ld ms, stop was requested at %ld ms", now_ms(), t0 + 15);
+                if (!any_busy()) HZ_CHECK(now_ms() == t0 + 15, "interval generator ended at %ld ms, stop was requested at %ld ms", now_ms(), t0 + 15);
             }
         } catch (const cocls::await_canceled_exception &) { code = -1; }
         interval_code = code;
@@ -257,19 +264,30 @@ struct RunCtx {
         for (auto &x : f) { co_await *x; }
     }
     void check(const char *where) {
-        // never early; exactly at the time point (virtual time only jumps when everything is idle)
+        // never early; exactly at the time point whenever a worker is idle at that moment (virtual time only jumps
+        // when everything is idle).  A sleeper doing blocking work after it woke occupies the thread that resumed it.
+        bool busy_any = any_busy();
         for (size_t i = 0; i < rec.size(); i++) {
             const SRec &r = rec[i];
             HZ_CHECK(r.woke >= 0, "%s: sleeper %zu never completed", where, i);
             if (r.code == 0) {
                 HZ_CHECK(r.woke >= r.tp, "%s: sleeper %zu woke at %ld ms, before its time point %ld ms", where, i, r.woke, r.tp);
-                HZ_CHECK(r.woke == r.tp, "%s: sleeper %zu woke at %ld ms, later than its time point %ld ms although the scheduler was idle", where, i, r.woke, r.tp);
+                // a thread that started its blocking work strictly BEFORE this time point cannot have taken this entry
+                // (entries are only taken when due): it is merely unavailable.  One that started AT this time point may
+                // have taken this entry too and queued it behind the work: then lateness is the user's doing, not checked.
+                unsigned occupied = 0; bool ambiguous = false;
+                for (size_t k = 0; k < rec.size(); k++) if (k != i && rec[k].busy_until >= 0 && r.tp < rec[k].busy_until) {
+                    if (rec[k].woke < r.tp) occupied++; else if (rec[k].woke == r.tp) ambiguous = true;
+                }
+                if (!ambiguous && occupied < workers())
+                    HZ_CHECK(r.woke == r.tp, "%s: sleeper %zu woke at %ld ms, later than its time point %ld ms although %u of %u scheduling threads were idle", where, i, r.woke, r.tp, workers() - occupied, workers());
             } else {
                 HZ_CHECK(r.code == -1, "%s: sleeper %zu finished with %d", where, i, r.code);
-                HZ_CHECK(r.woke <= r.tp, "%s: cancelled sleeper %zu woke after its time point", where, i);
+                if (!busy_any) HZ_CHECK(r.woke <= r.tp, "%s: cancelled sleeper %zu woke after its time point", where, i);
             }
         }
-        // deadline order among normally expired sleeps
+        // deadline order among normally expired sleeps (continuations on different busy threads may be recorded in any order)
+        if (!busy_any)
         for (size_t i = 0; i < rec.size(); i++) for (size_t j = 0; j < rec.size(); j++)
             if (rec[i].code == 0 && rec[j].code == 0 && rec[i].tp < rec[j].tp)
                 HZ_CHECK(rec[i].order < rec[j].order, "%s: sleeper %zu (tp %ld) completed after sleeper %zu (tp %ld)", where, i, rec[i].tp, j, rec[j].tp);
@@ -288,7 +306,7 @@ struct RunCtx {
             (void)pending;
         }
         if (p->interval == 2) HZ_CHECK(ticks == 2 && interval_code == 0, "%s: interval generator delivered %ld ticks (code %d), 2 expected", where, ticks, interval_code);
-        if (p->interval == 1) HZ_CHECK(ticks == 1 && interval_code == 0, "%s: interval generator with stop token: %ld ticks, code %d (1 tick then end expected)", where, ticks, interval_code);
+        if (p->interval == 1 && !any_busy()) HZ_CHECK(ticks == 1 && interval_code == 0, "%s: interval generator with stop token: %ld ticks, code %d (1 tick then end expected)", where, ticks, interval_code);
     }
 };
 
@@ -320,10 +338,18 @@ inline void run_run(const RunProg &p) {
         std::vector<std::thread> bl;
         for (size_t i = 0; i < p.sl.size(); i++) if (p.sl[i].kind == 1) bl.emplace_back([&c, i] { blocking_sleeper(c, i); });
         std::unique_ptr<cocls::future<void>> pending;
-        {
+        if (p.mode == 3) {
+            // two workers: the scheduler's own thread and the owner serving start(awaitable).  Everything is scheduled by a
+            // THIRD thread, typically while both workers are already waiting (each must then re-arm for new nearest deadlines)
+            cocls::future<void> gate_all; cocls::promise<void> gp = gate_all.get_promise();
+            std::thread starter([&c, &src, &gp] { hz::upoint(); cocls::future<void> all = c.root(&src).start(); all.wait(); gp(); });
+            if (p.destroy_pending) pending.reset(new cocls::future<void>(s->sleep_for(std::chrono::hours(1), &c)));
+            s->start(gate_all);
+            starter.join();
+        } else {
             cocls::future<void> all = c.root(&src).start();
             if (p.destroy_pending) pending.reset(new cocls::future<void>(s->sleep_for(std::chrono::hours(1), &c)));
-            if (p.wait_first || true) all.wait();      // the root future lives on this stack: always wait for it
+            all.wait();      // the root future lives on this stack: always wait for it
         }
         for (auto &t : bl) t.join();
         // destruction: must return promptly (no lost stop notification), pending sleeps are cancelled
@@ -336,10 +362,10 @@ inline void run_run(const RunProg &p) {
         }
         if (thr.joinable()) thr.join();
         pool.reset();
-        c.check(p.mode == 1 ? "thread mode" : "thread-pool mode");
+        c.check(p.mode == 1 ? "thread mode" : p.mode == 2 ? "thread-pool mode" : "two-worker mode");
     }
     unsigned cancels = 0; for (auto &x : p.sl) if (x.kind == 2) cancels++;
-    hz::set_class(1 + p.mode);
+    hz::set_class(1 + (p.mode == 3 ? 1 : p.mode));
     hz::set_nontrivial(p.sl.size() >= 2 || cancels || p.interval);
 }
 
